@@ -268,12 +268,17 @@ def check(pid, tier, seed, replay=None):
             failing.append(("harness-died", "the implementation aborted or hung; last case printed before it",
                             " ".join(hargs) + "\n" + last))
             continue
+        classify0 = classify
         for (line, impl, mobs, extra) in res:
+            classify = classify0
             if line.startswith("def "):
-                if impl != mobs:
-                    model_disagreements += 1
-                    broken.append(("corr", "builder outcome differs", f"{line}\nMODEL {mobs}"))
-                continue
+                on_def = getattr(classify, "on_def", None)
+                if on_def is None:
+                    if impl.split()[0] != mobs.split()[0] or (impl.startswith("ok") and impl != mobs and " KIND 0 " in line):
+                        model_disagreements += 1
+                        broken.append(("corr", "builder outcome differs", f"{line[:3000]}\nMODEL {mobs[:500]}"))
+                    continue
+                classify = on_def
             evaluations += 1
             h = hashlib.sha1(line.split(" IMPL ")[0].split(" ", 2)[2].encode()).hexdigest()
             distinct.add(h)
@@ -288,7 +293,10 @@ def check(pid, tier, seed, replay=None):
             if pf:
                 prop_failures += 1
                 failing.append((pf, info.get("why", pf), f"{line}\nMODEL {mobs}\nP {extra}"))
-            elif impl != mobs:
+            elif info.get("corr_fail"):
+                model_disagreements += 1
+                broken.append(("corr", info["corr_fail"], f"{line[:3000]}\nMODEL {mobs[:800]}\nP {extra}"))
+            elif impl != mobs and not line.startswith("def "):
                 model_disagreements += 1
                 broken.append(("corr", "model and implementation disagree",
                                f"{line}\nMODEL {mobs}\nP {extra}"))
